@@ -159,7 +159,7 @@ func c13Check(cs *drv.Case, fields []ref.Field) {
 		fail("unknown-fields-length", "UnknownFieldsLength = (%d, %v), encoded bytes: %d", l, err, len(wire))
 		return
 	}
-	out := make([]byte, len(wire))
+	out := dirty(len(wire))
 	n, err := uf.WriteUnknownFields(out, got)
 	if err != nil || n != len(wire) || !bytes.Equal(out, wire) {
 		fail("write-bytes", "WriteUnknownFields = (%d, %v); bytes equal: %v (first diff at %d)", n, err, bytes.Equal(out, wire), firstDiff(out, wire))
@@ -197,7 +197,7 @@ func c13Check(cs *drv.Case, fields []ref.Field) {
 		fail("unknown-fields-length", "UnknownFieldsLength(expected tree) = (%d, %v), want %d", l2, err, len(wire))
 		return
 	}
-	out2 := make([]byte, l2)
+	out2 := dirty(l2)
 	if _, err := uf.WriteUnknownFields(out2, want); err != nil {
 		fail("write-error", "%v", err)
 		return
@@ -298,7 +298,7 @@ func monC13(c *drv.Ctx) {
 				return
 			}
 			l, e1 := uf.UnknownFieldsLength(got)
-			out := make([]byte, l)
+			out := dirty(l)
 			n, e2 := uf.WriteUnknownFields(out, got)
 			if e1 != nil || e2 != nil || n != len(enc) || !bytes.Equal(out, enc) {
 				cs.Fail("convert-stale-tree", M{"when": "reused buffer"}, M{"round": round, "input_hex": hexOf(enc), "written_hex": hexOf(out[:minInt(n, len(out))]),
@@ -386,7 +386,7 @@ func monC13(c *drv.Ctx) {
 			return
 		}
 		l, err := uf.UnknownFieldsLength(got)
-		out := make([]byte, len(wire))
+		out := dirty(len(wire))
 		n, err2 := uf.WriteUnknownFields(out, got)
 		if err != nil || err2 != nil || l != len(wire) || n != len(wire) || !bytes.Equal(out, wire) {
 			cs.Fail("write-bytes", M{"stage": "nesting"}, M{"depth": depth, "path": path, "length": l, "written": n, "want": len(wire)})
